@@ -15,6 +15,7 @@
 #include <thread>
 #include <type_traits>
 #include <dlfcn.h>
+#include <unistd.h>
 #include <emmintrin.h>
 #include <photon/common/callback.h>
 #include <photon/common/timeout.h>
